@@ -149,12 +149,15 @@ def constrained_minimum(K, d, A, b):
 
 
 def feasibility(A, b, kinds, x, rtol=1e-9):
-    """list of (kind, residual, scale) for violated constraints"""
+    """list of (kind, residual, scale) for violated constraints. The residual is judged relative to the size of the
+    data of the whole problem (a linear solve is accurate relative to max|x|, not to an individual y that happens to
+    be close to zero)."""
     x = np.asarray(x, dtype=float)
     out = []
+    xmax = float(np.max(np.abs(x))) if x.size else 0.0
     for i in range(A.shape[0]):
         lhs = float(A[i] @ x)
-        scale = max(abs(b[i]), float(np.abs(A[i]) @ np.abs(x)), 1e-300)
+        scale = max(abs(b[i]), float(np.abs(A[i]) @ np.abs(x)), float(np.sum(np.abs(A[i]))) * xmax, 1e-300)
         if not (abs(lhs - b[i]) <= rtol * scale):
             out.append((kinds[i], lhs - b[i], scale))
     return out
